@@ -628,6 +628,9 @@ class PseudoNetCDFFile(PseudoNetCDFSelfReg, object):
             fidx = np.interp(val, dimevals, idx, left=left, right=right)
             if right is None or right == dimevals[-1]:
                 fidx = np.minimum(fidx, dimvals.size - 1)
+            else:
+                # a value on the outermost edge belongs to the last cell
+                fidx = np.where(fidx == dimvals.size, dimvals.size - 1, fidx)
         else:
             fidx = np.interp(val, dimvals, idx, left=left, right=right)
 
